@@ -261,14 +261,18 @@ class JSONPointer:
             return s
         # The "unicode-escape" codec reads its input as Latin-1, so characters
         # outside ASCII are escaped first to survive the round trip.
-        return (
-            codecs.decode(
-                s.replace("\\/", "/").encode("ascii", "backslashreplace"),
-                "unicode-escape",
+        try:
+            return (
+                codecs.decode(
+                    s.replace("\\/", "/").encode("ascii", "backslashreplace"),
+                    "unicode-escape",
+                )
+                .encode("utf-16", "surrogatepass")
+                .decode("utf-16")
             )
-            .encode("utf-16", "surrogatepass")
-            .decode("utf-16")
-        )
+        except UnicodeError as err:
+            # A truncated escape sequence or an unpaired surrogate.
+            raise JSONPointerError(f"invalid escape sequence: {err}") from err
 
     @classmethod
     def from_match(
